@@ -1,7 +1,7 @@
 """C14: the metadata filter removes exactly the keys it is told to, nothing else."""
-import json, re, copy
+import json, re, copy, os
 import numpy as np
-from . import core, meta as M, suite_meta as SM, stackgen as G, check_stack as CS
+from . import core, meta as M, suite_meta as SM, stackgen as G, check_stack as CS, check_codecorr as CC
 
 THEOREMS = ['C14.default_lists_literal', 'C14.substring_iff', 'C14.default_filter_iff', 'C14.default_excluded',
             'C14.default_keeps_included', 'C14.default_keeps_unmatched', 'C14.default_examples',
@@ -44,7 +44,7 @@ def main(pid, tier):
         'tools/gen_tables.py for default_key_excl_res / default_key_incl_res (the theorems are about the extracted lists)',
         "Python `re`: for patterns without metacharacters re.search is substring search; '|'.join('(?:'+r+')') is alternation (for non-literal patterns only the implementation-side oracle, written with `re`, is used)",
     ]
-    core.prove(rep, pid, THEOREMS)
+    core.prove(rep, pid, THEOREMS, extra_targets=['dcmcode'])
     r = core.rng(pid)
     drv = core.Driver()
     reqs, meta = [], []
@@ -99,6 +99,7 @@ def main(pid, tier):
         reqs.append({'op': 'default_filter', 'keys': keys, 'extra_excl': ee, 'extra_incl': ei})
         meta.append(('default', (ee, ei, keys), got))
     # ---- (c) filter_meta / clear_slice_meta on extensions with keys in every classification
+    creqs, cmeta = [], []
     for i in range(150 if tier == 'quick' else 3000):
         case = SM.gen_subset_case(r, tier)
         ext = SM.build_parent(case)
@@ -124,6 +125,15 @@ def main(pid, tier):
         e3.clear_slice_meta()
         reqs.append({'op': 'clear_slice_meta', 'ext': m0})
         meta.append(('clear', (case,), M.ext_to_model(e3)))
+        # the same three methods as translated from the source (`Props/Source_content.lean`), on the nested dictionaries
+        c0 = CC.content_of(ext)
+        if c0 is not None:
+            shp = [int(x) for x in ext.shape]
+            creqs += [{'op': 'filter_meta', 'shape': shp, 'content': c0, 'drop': drop},
+                      {'op': 'clear_slice_meta', 'shape': shp, 'content': c0},
+                      {'op': 'get_keys', 'shape': shp, 'content': c0}]
+            cmeta += [('filter_meta', (case, drop), CC.content_of(e2)), ('clear_slice_meta', (case,), CC.content_of(e3)),
+                      ('get_keys', (case,), list(keys))]
     for a, (kind, case, got) in zip(drv.ask(reqs), meta):
         co['cases'] += 1
         if kind in ('filter_meta', 'clear'):
@@ -136,6 +146,18 @@ def main(pid, tier):
             co['disagree'] += 1
             rep.disagreements.append(('regex_filter', 'filter:' + kind, {'case': case},
                                       'model %s vs implementation %s' % (json.dumps(a)[:300], json.dumps(got)[:300])))
+    cc = rep.corr.setdefault('translated_content_methods', {'cases': 0, 'agree': 0, 'disagree': 0})
+    if not os.path.exists(CC.CODE_DRIVER):
+        rep.unproved('the driver of the translated functions (dcmcode) is not built', {'kind': 'correspondence', 'suite': 'content'})
+    else:
+        for a, (kind, case, got) in zip(CC.ask(creqs), cmeta):
+            cc['cases'] += 1
+            if a.get('ok') == got:
+                cc['agree'] += 1
+            else:
+                cc['disagree'] += 1
+                rep.disagreements.append(('translated_content_methods', 'content:' + kind, {'case': case},
+                                          'translated %s vs implementation %s' % (json.dumps(a)[:300], json.dumps(got)[:300])))
     # ---- (d) conversion: key set = extracted minus filtered, default and custom filters
     nconv = 25 if tier == 'quick' else 500
     for ci in range(nconv):
